@@ -31,13 +31,44 @@ def _resolved(func, expr):
     return resolve_temps(func.node, expr, allow_subscript=True, pure_only=False, in_loops=True, loose=True)
 
 
+def _def_before(func, node, name):
+    """The expression most recently assigned to `name` by a plain assignment that precedes (in the same statement list) the
+    statement containing `node`; None if there is none."""
+    def find(stmts):
+        for i, s_ in enumerate(stmts):
+            if any(x is node for x in ast.walk(s_)):
+                # inside s_: look deeper first
+                for fld in ("body", "orelse", "finalbody"):
+                    sub = getattr(s_, fld, None)
+                    if isinstance(sub, list):
+                        r = find(sub)
+                        if r is not None:
+                            return r
+                for j in range(i - 1, -1, -1):
+                    p_ = stmts[j]
+                    if isinstance(p_, ast.Assign) and len(p_.targets) == 1 and isinstance(p_.targets[0], ast.Name) and p_.targets[0].id == name:
+                        return p_.value
+                    if any(isinstance(x, ast.Name) and x.id == name and isinstance(x.ctx, ast.Store) for x in ast.walk(p_)):
+                        return None
+                return None
+        return None
+    return find(func.node.body)
+
+
 def _appends(func):
     """[(list name, appended expression (resolved), call node)] for every `<name>.append(x)` in func."""
     out = []
     for n in walk_no_nested(func.node):
         if isinstance(n, ast.Call) and isinstance(n.func, ast.Attribute) and n.func.attr == "append" and len(n.args) == 1 \
                 and isinstance(n.func.value, ast.Name):
-            out.append((n.func.value.id, _resolved(func, n.args[0]), n))
+            v = _resolved(func, n.args[0])
+            if isinstance(v, ast.Name):
+                # a name bound more than once in the function (also used as a loop variable elsewhere): the definition that
+                # reaches this append in its own block
+                d = _def_before(func, n, v.id)
+                if d is not None:
+                    v = _resolved(func, d)
+            out.append((n.func.value.id, v, n))
     return out
 
 
@@ -1152,6 +1183,26 @@ def _monitor(ctx):
         if isinstance(s, (ast.While, ast.For)) and any(isinstance(n, ast.Attribute) and n.attr == "exitcode" for n in ast.walk(s)):
             if any(isinstance(n, ast.Name) and n.id == wl for n in ast.walk(s)):
                 mon = s
+    if mon is not None:
+        # `code = p.exitcode` read once into a local: the tests on `code` are tests on p.exitcode
+        al = {}
+        cnt = {}
+        for n in ast.walk(mon):
+            if isinstance(n, ast.Name) and isinstance(n.ctx, ast.Store):
+                cnt[n.id] = cnt.get(n.id, 0) + 1
+        for n in ast.walk(mon):
+            if isinstance(n, ast.Assign) and len(n.targets) == 1 and isinstance(n.targets[0], ast.Name) and isinstance(n.value, ast.Attribute) \
+                    and n.value.attr == "exitcode" and cnt.get(n.targets[0].id) == 1:
+                al[n.targets[0].id] = n.value
+        if al:
+            mon = copy.deepcopy(mon)
+
+            class T(ast.NodeTransformer):
+                def visit_Name(self, n):
+                    if isinstance(n.ctx, ast.Load) and n.id in al:
+                        return ast.copy_location(copy.deepcopy(al[n.id]), n)
+                    return n
+            mon = T().visit(mon)
     return pa, wl, mon
 
 
